@@ -106,7 +106,7 @@ def program_jobs(tier, tags, ub, timeout, quick_subset):
             for e, a in ents]
 
 
-LABEL_ENTRIES = [('h_labels_fwd', 'p: GOTO x; y:   q: GOTO z', dict(MINISTL_STR_CAP=12, GR_CODE=5, GR_REGS=1, GR_INT=3)),
+LABEL_ENTRIES = [('h_labels_fwd', 'p: GOTO x; y:   q: z:', dict(MINISTL_STR_CAP=12, GR_CODE=5, GR_REGS=1, GR_INT=3)),
                  ('h_labels_back', 'p: x: IF..GOTO y   q: z: GOTO w', dict(GR_CODE=10, GR_REGS=4, GR_INT=4)),
                  ('h_labels_two', 'p: IF..GOTO x; GOTO y; z:   q: w:', dict(GR_CODE=10, GR_REGS=4, GR_INT=4)),
                  ('h_labels_mix', 'p: GOTO x; y: z:   q: IF..GOTO w; v:', dict(GR_CODE=10, GR_REGS=4, GR_INT=4))]
